@@ -57,10 +57,13 @@ def generate(r, tier):
     sc["hand"] = [kgen.handwritten(r, prog, sane=False) for _ in range(r.randint(0, 2))]
     sc["tool_prefix"] = [ops.gen_history(r, prog, r.randint(0, 5), weights={"read": 0, "save": 0, "load": 0, "restart": 0, "load_hand": 0}, sane=0.9)]
     sc["initial"] = r.choice(["empty", "tool", "hand"])
+    sc["prog_alt"] = kgen.evolve(r, prog) if r.random() < 0.4 else None  # a file written under another version of the tree
+    if sc["prog_alt"] and r.random() < 0.4:
+        sc["initial"] = "alt"
     tab = kgen.sym_table(prog)
     names = list(tab)
     n = r.randint(1, 12)
-    good = srvgen.gen_requests(r, prog, n, sc["version"], hand_n=len(sc["hand"]), tool_n=1, sane=0.6)
+    good = srvgen.gen_requests(r, prog, n, sc["version"], hand_n=len(sc["hand"]), tool_n=1, sane=0.6, alt=bool(sc["prog_alt"]))
     lines = []
     for d in good[:n]:
         k = r.random()
@@ -96,6 +99,8 @@ def generate(r, tier):
     sc["lines"] = lines
     sc["bad_file"] = r.random() < 0.3  # hand_99: invalid UTF-8
     sc["pipes"] = r.choice(PIPES)  # (stdin error handler, stdout encoding) of the deployment
+    # diagnostics are only printed at all above the "quiet" report verbosity: the deployment's default is "default"
+    sc["verbosity"] = r.choice(["default", "default", "default", "verbose", "quiet"])
     return sc
 
 
@@ -122,7 +127,7 @@ def _offending(k, desc, version, sb):
     core = simproc.core
     if "load" in desc:
         spec = desc["load"]
-        if spec is None or (isinstance(spec, list) and spec and spec[0] in ("slot", "hand", "tool") and os.path.isfile(srvgen.resolve_path(spec, sb) or "")
+        if spec is None or (isinstance(spec, list) and spec and spec[0] in ("slot", "hand", "tool", "alt") and os.path.isfile(srvgen.resolve_path(spec, sb) or "")
                             and not (spec[0] == "hand" and spec[1] == 99)):
             clean["load"] = spec
         elif isinstance(spec, list) and spec and spec[0] == "dir" and not os.path.isdir(os.path.join(sb, "adir")):
@@ -236,7 +241,8 @@ def _run(sc, ctx, sb, lines, judge):
         with builtins.open(os.path.join(sb, "hand_99"), "wb") as f:
             f.write(b"CONFIG_A=\xff\xfe\n\x80abc")
     version = sc["version"]
-    sess = simpipe.Session(kpath, sdk, rn, version=version, parser=sc["parser"], policy=sc.get("policy"), pipes=sc.get("pipes"))
+    sess = simpipe.Session(kpath, sdk, rn, version=version, parser=sc["parser"], policy=sc.get("policy"), pipes=sc.get("pipes"),
+                           verbosity=sc.get("verbosity", "quiet"))
     state = {"menu_ids": []}
 
     def next_line(s, i):
@@ -370,4 +376,4 @@ def reductions(sc):
             c = copy.deepcopy(sc)
             c[key] = []
             yield c
-    yield from common.prog_reductions(sc)
+    yield from common.prog_reductions(sc, keys=("prog", "prog_alt"))
